@@ -218,6 +218,10 @@ func (e *Engine) eval(env *Env, n *cexpr.Node) Value {
 				body = smt.And(append(extra, body)...)
 			}
 		}
+		if len(bound) == 1 {
+			nb, nbody := smt.Rebase(bound[0], body)
+			bound, body = []*smt.Term{nb}, nbody
+		}
 		if n.Kind == "forall" {
 			return BoolV{smt.Forall(bound, body)}
 		}
